@@ -249,7 +249,7 @@ PROPS = {
     "C17": {
         "rule": FEAT_RULE.replace("a share", "40%") + "FOLD (implementation vs model) and SPECFOLD (valid programs: one range per procedure in source "
                 "order from the line of `proc` after the doc comments to the line of the last token, by Grammar + LspPos). " + TEXT_RULE,
-        "unproved_parts": ["fold_one_per_procedure, skip_leading_comments_head, fold_wellformed (start line <= end line for every document whose tokens are the tokenisation of its text) are theorems; the exact line numbers and non-overlap are compared on every run with the specification (SPECFOLD), not theorems"],
+        "unproved_parts": ["none for the model: fold_exact (valid programs in any layout, comments anywhere: one range per procedure in source order, from the line of its `proc` keyword - the first token behind its documentation comments - to the line on which its closing brace ends), fold_ordered (each range ends no later than the next one starts), fold_one_per_procedure and fold_wellformed (every document: start line <= end line) ARE theorems; `inside the document` follows from C03.published_range_inside's lemma on as_position; the tie of the model to fold.rs is the FOLD correspondence, SPECFOLD compares implementation and specification directly"],
     },
     "C03": {
         "rule": "G_prog well-typed programs (any order of declarations, nested array types, reference parameters, nested control flow, "
